@@ -249,6 +249,17 @@ fn load_sources(thorough: bool) -> Vec<Source> {
         let d = tables::minimal_font(7, &[], &[(otmodel::tag(b"cmap"), tables::cmap_table(&[(3, 1, sub)]))]);
         v.push(Source { name: "synthetic/cmap4-first-segment-points-outside-the-subtable".into(), data: d, num_glyphs: 7, small: true, light: false });
     }
+    // (b5) a BMP-only font whose whole-font subset needs a format 4 subtable of more than 65535 bytes (8500 characters five
+    // code points apart: one segment each) and one just below that size: the 16 bit length field cannot hold the first
+    {
+        use otmodel::tables;
+        for (n, name) in [(8502u16, "above"), (8100, "below")] {
+            let map: Vec<(u32, u32)> = (1..n as u32).map(|g| (0x100 + 5 * (g - 1), g)).collect();
+            let sub = tables::cmap12_subtable(&map);
+            let d = tables::minimal_font(n, &[], &[(otmodel::tag(b"cmap"), tables::cmap_table(&[(3, 10, sub)]))]);
+            v.push(Source { name: format!("synthetic/cmap-whole-font-{}-the-format-4-size-limit", name), data: d, num_glyphs: n, small: false, light: false });
+        }
+    }
     // CFF / CFF2 sources from the C18 generator: every path operator incl. the four flex forms, stems and masks, width
     // prefix, every number encoding, local and global subroutines at the bias edges, CID-keyed and FDSelect fonts
     for (name, d) in crate::c18::corpus_for_c07() {
@@ -443,6 +454,13 @@ fn glyph_lists(src: &Source, thorough: bool) -> Vec<Vec<u16>> {
             }
         }
         rec(&mut vec![0], n, max_len, &mut out);
+    } else if src.name.contains("the-format-4-size-limit") {
+        // only the lists that decide the subtable size: the whole font, in order and reversed, and the font without its tail
+        out.push((0..n).collect());
+        let mut r: Vec<u16> = vec![0];
+        r.extend((1..n).rev());
+        out.push(r);
+        out.push((0..n - 400).collect());
     } else {
         out.push(vec![0]);
         let step = if thorough { 1 } else if src.light { (n / 12).max(1) } else { (n / 160).max(1) };
@@ -1116,6 +1134,10 @@ pub fn run_which(ctx: &Ctx, which: Which) {
                 // the Prince options differ from Subset only in the cmap / CID handling: exercise them on a third of the lists
                 let h = H::new().bytes(&l.iter().flat_map(|g| g.to_be_bytes()).collect::<Vec<u8>>()).get();
                 if o != Opt::Subset && !s.small && !s.light && h % 3 != 0 {
+                    continue;
+                }
+                // the two 8000-glyph cmap sources exist for the size of the format 4 subtable the plain subsetter writes
+                if o != Opt::Subset && s.name.contains("the-format-4-size-limit") {
                     continue;
                 }
                 if o == Opt::PrinceSupplied && l.len() > 200 {
